@@ -106,6 +106,94 @@ func Transfer(to, tokenID, data) (ok)
   ensures [C10] ok && to != old(ns(store, tokenID)).Owner ==> nbal(store, to) == old(nbal(store, to)) + 1
         && nbal(store, old(ns(store, tokenID)).Owner) == old(nbal(store, old(ns(store, tokenID)).Owner)) - 1
         && store.has(ikey(to, tokenID)) && !store.has(ikey(old(ns(store, tokenID)).Owner, tokenID))
+
+// ---- registration, expiry and the parent chain --------------------------------------------------------------
+pure tsupply(s Store) Int = b2i(s.get("\x00"))
+pure okName(s Store, n Bytes) Bool = s.has(nkey(n)) && now < ns(s, n).Expiration
+// sfx(f, i): the name formed by the labels i, i+1, ... of f joined with dots (definition by recursion)
+ufun sfx(f L_NB, i Int) Bytes
+axiom sfxDef: forall f L_NB, i Int {sfx(f, i)} :: 0 <= i && i < len(f) ==> sfx(f, i) == (i == len(f) - 1 ? f[i] : f[i] ++ "." ++ sfx(f, i + 1))
+
+// true iff some name on the chain fragments[first..] is missing or expired (a name is expired from the instant
+// now == Expiration on)
+func parentExpired(ctx, first, fragments) (r)
+  pure
+  requires len(fragments) >= 1 && 0 <= first
+  ensures [C10] !r ==> forall j Int {sfx(fragments, j)} :: first <= j && j < len(fragments) ==> okName(store, sfx(fragments, j))
+  ensures [C10] r ==> exists j Int :: first <= j && j < len(fragments) && !okName(store, sfx(fragments, j))
+  loop 0
+    invariant last == len(fragments) - 1 && i <= last && now == entry(now)
+    invariant (i == last ==> name == fragments[last]) && (i < last ==> name == sfx(fragments, i + 1))
+    invariant forall j Int {sfx(fragments, j)} :: i < j && j <= last ==> okName(store, sfx(fragments, j))
+
+func checkFragment(v, isRoot) (r)
+  trusted
+  pure
+  ensures true
+
+func safeSplitAndCheck(name) (r, msg)
+  pure
+  ensures len(msg) == 0 ==> r == split(name, ".")
+  loop 0
+    invariant l == len(fragments) && fragments == split(name, ".")
+
+func splitAndCheck(name) (r)
+  pure
+  ensures r == split(name, ".")
+
+func getParentConflictingRecord(ctx, name, fragments) (r)
+  trusted
+  pure
+  ensures true
+
+func putSoaRecord(ctx, name, email, refresh, retry, expire, ttl)
+  trusted
+  ensures forall k Bytes {store.opt(k)} :: !prefix("\x22", k) ==> store.opt(k) == old(store).opt(k)
+  ensures notifs == old(notifs)
+
+func updateTotalSupply(ctx, diff)
+  ensures [C10] tsupply(store) == old(tsupply(store)) + diff && store.has("\x00")
+  ensures forall k Bytes {store.opt(k)} :: k != "\x00" ==> store.opt(k) == old(store).opt(k)
+  ensures notifs == old(notifs)
+
+// exactly one NEP-11 Transfer notification (from, to, 1, name); the receiver callback cannot touch this contract's storage (A7)
+func postTransfer(from, to, tokenID, data)
+  ensures [C10] notifs == old(notifs) ++ [Transfer(from, to, 1, tokenID)]
+  ensures store == old(store)
+
+func saveDomain(ctx, name, email, refresh, retry, expire, ttl, owner)
+  ensures [C10] store.has(nkey(name)) && ns(store, name).Owner == owner && ns(store, name).Name == name
+        && ns(store, name).Expiration == now + expire * 1000 && isnil(ns(store, name).Admin)
+  ensures forall k Bytes {store.opt(k)} :: k != nkey(name) && !prefix("\x22", k) ==> store.opt(k) == old(store).opt(k)
+  ensures notifs == old(notifs)
+
+func Register(name, owner, email, refresh, retry, expire, ttl) (ok)
+  requires store.has("\x00")
+  // a name is unavailable from its registration until its expiration time: nothing changes then
+  ensures [C10] !ok ==> store == old(store) && notifs == old(notifs) && okName(old(store), name)
+  ensures [C10] ok ==> !okName(old(store), name)
+  // the whole parent chain is registered and unexpired
+  ensures [C10] forall j Int {sfx(split(name, "."), j)} :: 1 <= j && j < len(split(name, ".")) ==> okName(old(store), sfx(split(name, "."), j))
+  // the new record
+  ensures [C10] ok ==> store.has(nkey(name)) && ns(store, name).Owner == owner && ns(store, name).Name == name
+        && ns(store, name).Expiration == now + expire * 1000 && isnil(ns(store, name).Admin) && len(owner) == 20
+  // accounting: a fresh name adds one token; re-registering an expired name moves it from the old owner to the new one
+  ensures [C10] ok && !old(store).has(nkey(name)) ==> tsupply(store) == old(tsupply(store)) + 1 && nbal(store, owner) == old(nbal(store, owner)) + 1
+  ensures [C10] ok && old(store).has(nkey(name)) ==> tsupply(store) == old(tsupply(store))
+  ensures [C10] ok && old(store).has(nkey(name)) && old(ns(store, name)).Owner != owner ==> nbal(store, owner) == old(nbal(store, owner)) + 1
+        && nbal(store, old(ns(store, name)).Owner) == old(nbal(store, old(ns(store, name)).Owner)) - 1 && !store.has(ikey(old(ns(store, name)).Owner, name))
+  ensures [C10] ok && old(store).has(nkey(name)) && old(ns(store, name)).Owner == owner ==> nbal(store, owner) == old(nbal(store, owner))
+  // tokensOf(owner) lists the name
+  ensures [C10] ok ==> store.has(ikey(owner, name)) && store.get(ikey(owner, name)) == name
+  // exactly one Transfer(old owner or nil, owner, 1, name)
+  ensures [C10] ok && !old(store).has(nkey(name)) ==> notifs == old(notifs) ++ [Transfer(nil, owner, 1, name)]
+  ensures [C10] ok && old(store).has(nkey(name)) ==> notifs == old(notifs) ++ [Transfer(old(ns(store, name)).Owner, owner, 1, name)]
+
+// a name is available exactly when it (or one of its parents) is missing or expired, and the parent holds no conflicting record
+func IsAvailable(name) (r)
+  pure
+  ensures [C10] r && old(store).has("\x20" ++ split(name, ".")[len(split(name, ".")) - 1]) ==> exists j Int :: 0 <= j && j < len(split(name, ".")) && !okName(store, sfx(split(name, "."), j))
+  ensures [C10] !r ==> forall j Int {sfx(split(name, "."), j)} :: 0 <= j && j < len(split(name, ".")) ==> okName(store, sfx(split(name, "."), j))
 @*/
 
 /*@
